@@ -78,10 +78,29 @@ class Run(object):
 
     # ----------------------------------------------------------- obligations
     def rule(self, rid, text, minimum=0):
+        if getattr(self, '_force_rule', None):
+            return
         self.rules[rid] = {'text': text, 'min': minimum, 'count': 0}
+
+    def as_rule(self, rid):
+        """Context manager: obligations recorded inside are filed under rule ``rid`` (a rule of another property's
+        module reused as a clause of this one)."""
+        run = self
+
+        class _Ctx(object):
+            def __enter__(self_):
+                self_.prev = getattr(run, '_force_rule', None)
+                run._force_rule = rid
+
+            def __exit__(self_, *a):
+                run._force_rule = self_.prev
+                return False
+        return _Ctx()
 
     def ob(self, rid, instance, ok, detail='', func=None, node=None, construct=None):
         """Record one obligation.  A failed obligation becomes a finding."""
+        if getattr(self, '_force_rule', None):
+            rid = self._force_rule
         if rid not in self.rules:
             raise AnalysisError('unregistered rule %s' % rid)
         self.rules[rid]['count'] += 1
